@@ -34,6 +34,20 @@ class VTimeout(Value):
         self.delay = delay
 
 
+class VAnyOf(Value):
+    """env.any_of([...]) condition event"""
+
+    def __init__(self, members):
+        self.members = members
+
+
+class VPyList(Value):
+    """a list literal with heterogeneous members (only used to build any_of arguments)"""
+
+    def __init__(self, items):
+        self.items = list(items)
+
+
 class VGen(Value):
     """a generator object created by calling a generator method (not started)"""
 
@@ -409,6 +423,9 @@ class Exec:
                 outs.append((V.SList(z3.IntVal(0), lambda i: VOpaque("empty"), ("any",)), s))
                 continue
             vs = list(vals)
+            if any(isinstance(v, (VTimeout, VAnyOf, VGen)) for v in vs) or len(set(type(v) for v in vs)) > 1:
+                outs.append((VPyList(vs), s))
+                continue
             ek = self.kind_of_value(vs[0])
 
             def at(i, vs=vs):
